@@ -84,6 +84,20 @@ def lookup(table, base, n, used_shapes=None, _hoisted=False):
             return e
     if used_shapes is None:
         return None
+    if not _hoisted and n is not None:
+        # code shared by two methods through a new private helper (inlined into both): the site is the reviewed one of a sibling method of the
+        # same impl (same kind, same text); its `requires` are evaluated at the new place
+        bp = base.split("|", 2)
+        if len(bp) == 3:
+            par = _re.sub(r"::\w+$", "", bp[0])
+            for e in table:
+                ep = e["_key"].split("|", 2)
+                if len(ep) == 3 and ep[1] == bp[1] and ep[2] == bp[2] and ep[0] != bp[0] and _re.sub(r"::\w+$", "", ep[0]) == par and par.startswith("<") \
+                        and ("sib", id(e), bp[0]) not in used_shapes:
+                    used_shapes.add(("sib", id(e), bp[0]))
+                    e2 = dict(e)
+                    e2["sibling"] = ep[0]
+                    return e2
     if not _hoisted and _re.search(r"::\{closure#\d+\}\|", base):
         # a loop body turned into the closure of an iterator adaptor (`for x in v {..}` -> `v.iter().for_each(|x| ..)`): the site is the reviewed
         # one of the enclosing function (its `dom` requirements are then evaluated where the closure is built, see check_requires)
@@ -245,7 +259,7 @@ site("fec::raptorq::RaptorQDecoder::new|Overflow(Mul)|Overflow(Mul)(nb_source_sy
 # ---- BlockWriter / decompression -------------------------------------------------------------------------------------------------------
 site("receiver::blockwriter::BlockWriter::decode_write_pkt|unwrap|Option::unwrap(Option::as_mut(&self.decoder))",
      "decode_write_pkt is called only when cenc != Null (BlockWriter::write) and init_decoder() has run when the decoder was None: for the three non-Null encodings it stores Some",
-     [("guard", "receiver::blockwriter::BlockWriter::decode_write_pkt", r"self\.decoder is (Some|None)"), ("guard", "receiver::blockwriter::BlockWriter::write", r"self\.cenc == Cenc::Null")])
+     [("guard", "receiver::blockwriter::BlockWriter::decode_write_pkt", r"self\.decoder is (Some|None)"), ("guard", "receiver::blockwriter::BlockWriter::write", r"self\.cenc is Null")])
 site("receiver::blockwriter::BlockWriter::decoder_read|unwrap|Option::unwrap(Option::as_mut(&self.decoder))",
      "callers: decode_write_pkt (decoder just initialised / known Some) and write() under `self.decoder.is_some()`",
      [("guard", "receiver::blockwriter::BlockWriter::write", r"self\.decoder is Some")])
